@@ -3,7 +3,7 @@
    The model is Html/Model.v (all of /repo/html/lex.go and ToHash over the generated table); [run c n l] is a
    caller that calls Next n times whatever it returns; [cfg_ok c] says the two template delimiters contain no
    NUL byte (c = no_tmpl: NewLexer; the six predefined pairs satisfy it, cfg_ok_predefined). *)
-From Verif Require Import Common.Base Common.Lx Gen.Tables Html.Model Html.ListLemmas Html.Safety Html.Step Html.Spec Html.RawText Html.Proofs Html.Template Html.Wf Html.WfDoc.
+From Verif Require Import Common.Base Common.Lx Gen.Tables Html.Model Html.ListLemmas Html.Safety Html.Step Html.Spec Html.RawText Html.Proofs Html.Template Html.Wf Html.WfDoc Html.EndTag.
 
 (* C01 — no panic, no endless loop: n calls of Next succeed on every byte string, with or without template
    delimiters, whatever the caller does after an error. *)
@@ -46,20 +46,11 @@ Print Assumptions html_no_overread.
 (* C02 — up to the first ErrorToken the tokens are non-empty, in order, inside the input, end at the reported
    offset and cover everything except whitespace before the '>' / '/>' of a tag; their bytes are the input bytes
    with exactly one view lower-cased, which view being fixed by the token type (low_rule: the tag name of start
-   tags and svg/math/xml, the attribute name unless it contains a template, the WHOLE end tag, nothing else). *)
+   tags and svg/math/xml, the attribute name unless it contains a template, the tag NAME of an end tag, nothing else). *)
 Theorem html_tiling :
   forall c d n tr, cfg_ok c -> run c n (new_lexer d) = Ok tr -> tiles d 0 tr.
 Proof. exact html_tiling_proof. Qed.
 Print Assumptions html_tiling.
-
-(* C02 refuted — "the only bytes altered are the case of tag and attribute names": in "</a X=Y>" the byte after
-   '=' is lower-cased. *)
-Theorem html_endtag_case_refuted :
-  exists d v l' i, next no_tmpl (new_lexer d) = Ok (EndTagT, Some v, l') /\
-    so v <= i < so v + sn v /\ getz d (i - 1) = 61 /\ getz (lbuf (lz l')) i <> getz d i /\
-    view_bytes (lbuf (lz l')) v = [60; 47; 97; 32; 120; 61; 121; 62].
-Proof. exact html_endtag_case_refuted_proof. Qed.
-Print Assumptions html_endtag_case_refuted.
 
 (* C02 — Text(), AttrKey() and AttrVal() are sub-slices of the token they belong to. *)
 Theorem html_subslices :
@@ -87,9 +78,11 @@ Print Assumptions html_template_elsewhere_refuted.
 
 (* C09 — raw text: after the start tag of a raw-text element (rawtag l <> 0, tag closed) the content up to e is
    returned as ONE Text token and the raw-text mode is left; e is the end of input or the position of an end tag of
-   that element (end_tag_at: "</" + a maximal run of letters that hashes to the element, case-insensitively), as
-   found by the modelled rules (script double escape, template regions skipped); without template delimiters and
-   outside script it is the FIRST such end tag.  (If the content is empty, e = cursor, lexing continues normally.) *)
+   that element (end_tag_at: "</" + a maximal run of letters that hashes to the element, case-insensitively,
+   FOLLOWED BY whitespace, '/', '>' or the end of input), as found by the modelled rules (script double escape,
+   template regions skipped); without template delimiters and outside script it is the FIRST such end tag.
+   For script there is one more way out, inside a "<!--" section: "</script" followed by any non-letter
+   (end_tag_weak; see html_rawtext_script_comment_prefix_refuted).  (If the content is empty, e = cursor.) *)
 Theorem html_rawtext_never_markup :
   forall c d l ty tk l', cfg_ok c -> html_inv d l -> intag l = false -> rawtag l <> 0 ->
     next c l = Ok (ty, tk, l') ->
@@ -97,23 +90,13 @@ Theorem html_rawtext_never_markup :
       (lpos (lz l) < e ->
          ty = TextT /\ tk = Some (mkSl (lpos (lz l)) (e - lpos (lz l))) /\ ltext l' = tk /\
          rawtag l' = 0 /\ intag l' = false /\ lpos (lz l') = e) /\
-      (e = len d \/ (rawtag l <> html_hash_Plaintext /\ end_tag_at (rawtag l) (d ++ [0]) e)) /\
+      (e = len d \/ (rawtag l <> html_hash_Plaintext /\
+                     (end_tag_at (rawtag l) (d ++ [0]) e \/
+                      (rawtag l = html_hash_Script /\ end_tag_weak (rawtag l) (d ++ [0]) e)))) /\
       (has_delims c = false -> rawtag l <> html_hash_Script -> rawtag l <> html_hash_Plaintext ->
          forall p, lpos (lz l) <= p < e -> ~ end_tag_at (rawtag l) (d ++ [0]) p).
 Proof. exact html_rawtext_proof. Qed.
 Print Assumptions html_rawtext_never_markup.
-
-(* C09 refuted (found while modelling) — "ending only at the matching end tag": any non-letter after "</title"
-   ends the raw text; the end tag found there calls itself "title-x". *)
-Theorem html_rawtext_endtag_prefix_refuted :
-  let d := [60;116;105;116;108;101;62;97;60;47;116;105;116;108;101;45;120;62;98;60;47;116;105;116;108;101;62] in
-  exists tr, run no_tmpl 4 (new_lexer d) = Ok tr /\
-    map (fun r => (fst (fst r), snd (fst r))) tr =
-      [(StartTagT, Some (mkSl 0 6)); (StartTagCloseT, Some (mkSl 6 1)); (TextT, Some (mkSl 7 1)); (EndTagT, Some (mkSl 8 10))] /\
-    (exists r, nth_error tr 3 = Some r /\
-       match ltext (snd r) with Some t => view_bytes (lbuf (lz (snd r))) t = [116;105;116;108;101;45;120] | None => False end).
-Proof. exact html_rawtext_endtag_prefix_refuted_proof. Qed.
-Print Assumptions html_rawtext_endtag_prefix_refuted.
 
 (* C09 refuted (found while modelling) — "svg subtrees come back as one SVG token": a double quote in character
    data makes the token swallow "</svg>" and everything after it. *)
@@ -167,7 +150,7 @@ Print Assumptions html_template_atomic_rawtext_partial.
 (* C09 — well-formed documents (partial): for every document assembled from the constructs of the grammar
    WfDoc.item (text without '<'; comments; CDATA; doctype in any ASCII case; start tags of ordinary elements with
    valueless / unquoted / single- / double-quoted attributes and any permitted whitespace, closed by '>' or '/>';
-   end tags; the raw-text elements style, title, textarea, xmp, iframe in any ASCII case with attributes, non-empty
+   end tags with any HTML whitespace before '>'; the raw-text elements style, title, textarea, xmp, iframe in any ASCII case with attributes, non-empty
    content that contains no "</" (script: no '<'), and their end tag; svg / math / xml subtrees whose inside contains no double
    quote, no NUL and no "</") the lexer, without template delimiters, returns exactly one token per construct
    (one per tag part; raw content as ONE Text token; an svg/math subtree as ONE SVG/Math token), with the right
@@ -183,10 +166,25 @@ Theorem html_wellformed_tokens_partial :
 Proof. exact html_wellformed_tokens_proof. Qed.
 Print Assumptions html_wellformed_tokens_partial.
 
-(* C09 refuted (found while modelling) — "any permitted whitespace ... lower-cased Text()": a form feed before the
-   '>' of an end tag stays in Text(). *)
-Theorem html_endtag_formfeed_refuted :
-  exists v t l', next no_tmpl (new_lexer [60; 47; 97; 12; 62]) = Ok (EndTagT, Some v, l') /\ ltext l' = Some t /\
-    view_bytes (lbuf (lz l')) t = [97; 12] /\ is_ws 12 = true.
-Proof. exact html_endtag_formfeed_refuted_proof. Qed.
-Print Assumptions html_endtag_formfeed_refuted.
+
+(* C02 / C09 — end tags are faithful (full clause, after fixes 980d021 and 7de66fe): for every end-tag token before
+   the first error, with nr = the length of its name (the bytes after "</" up to the first whitespace, '>' or '/'),
+   the token bytes are the input bytes with exactly the NAME lower-cased — every other byte is returned as it was —;
+   Text() starts after "</", does not end in HTML whitespace (space, tab, LF, CR, FF), and only whitespace and the
+   closing '>' follow it inside the token. *)
+Theorem html_endtag_faithful :
+  forall c d n tr, cfg_ok c -> run c n (new_lexer d) = Ok tr -> Forall (endtag_faithful d) (until_error tr).
+Proof. exact html_endtag_faithful_proof. Qed.
+Print Assumptions html_endtag_faithful.
+
+(* C09 refuted (remaining after fix 756382e) — inside the "<!--" section of a script element the end-tag test has no
+   check of the following byte: "<script><!--a</script-x>b--></script>" ends the raw text before "</script-x>". *)
+Theorem html_rawtext_script_comment_prefix_refuted :
+  let d := [60;115;99;114;105;112;116;62;60;33;45;45;97;60;47;115;99;114;105;112;116;45;120;62;98;45;45;62;60;47;115;99;114;105;112;116;62] in
+  exists tr, run no_tmpl 4 (new_lexer d) = Ok tr /\
+    map (fun r => (fst (fst r), snd (fst r))) tr =
+      [(StartTagT, Some (mkSl 0 7)); (StartTagCloseT, Some (mkSl 7 1)); (TextT, Some (mkSl 8 5)); (EndTagT, Some (mkSl 13 11))] /\
+    (exists r, nth_error tr 3 = Some r /\
+       match ltext (snd r) with Some t => view_bytes (lbuf (lz (snd r))) t = [115;99;114;105;112;116;45;120] | None => False end).
+Proof. exact html_rawtext_script_comment_prefix_refuted_proof. Qed.
+Print Assumptions html_rawtext_script_comment_prefix_refuted.
